@@ -945,7 +945,9 @@ def gen_value(rng, spec, T, depth=0, top=True):
         if p == 'Date':
             return pydt.date(2000 + rng.randrange(30), rng.randrange(1, 13), rng.randrange(1, 29))
         if p == 'ByteArray':
-            return bytes(rng.randrange(256) for _ in range(rng.randrange(1, 9)))
+            # at least two bytes: like a one-character string, a one-byte bare reply has len() == 1 and zeep 4.x takes
+            # it for a one-member wrapper object (AttributeError: 'bytes' object has no attribute '__values__')
+            return bytes(rng.randrange(256) for _ in range(rng.randrange(2, 9)))
     if 'e' in T:
         return rng.choice([x for x in spec['types'] if x['name'] == T['e']][0]['values'])
     if 'attr' in T:
